@@ -107,7 +107,10 @@ def cases(tier, seed):
     # crops with more than 100 batches (three-digit ids, any internal window)
     big = [(101, "batchsize", 1), (128, "num_batches", 128),
            (130, "num_batches", 101), (1010, "batchsize", 10),
-           (257, "default", None)]
+           (257, "default", None),
+           # batches of more than 256 settings (beyond the small integers
+           # the interpreter keeps as singletons)
+           (700, "batchsize", 300), (1000, "num_batches", 3)]
     for bi, (n, mode, req) in enumerate(big):
         for vi, (kind, shuffle, const) in enumerate(variants):
             if (vi + bi) % (2 if tier == "thorough" else 4) == 0:
